@@ -47,7 +47,7 @@ class RealWaitTimeout(Exception):
     """Real-thread world: a wait on the budget condition never ended (reported as a deadlock)."""
 
 
-REAL_WAIT_TIMEOUT = 8.0
+REAL_WAIT_TIMEOUT = 900.0   # never decides anything by itself: run_real declares a deadlock only after a quiet period
 
 
 class ReplayMismatch(Exception):
@@ -153,7 +153,8 @@ class GatedEnv:
                 except SchedAbort:
                     pass
                 except BaseException as e:  # noqa: BLE001 - the harness itself failed
-                    self.error = e
+                    if self.error is None:
+                        self.error = e
             if st.killed or self.aborting:
                 return
             self.threads.pop(tid, None)
@@ -287,16 +288,23 @@ class GatedEnv:
         return types.SimpleNamespace(futures=futures)
 
     def lock_kind(self) -> str:
-        site = _lock_site_from()
-        st = self.me()
-        if site == "_create_tensor_write_locks":
-            return "tensor"
-        if site == "_write_external_tensors":
-            return "ocb"
-        if site == "_write_parallel":
+        kind = _classify_site(_lock_site_from())
+        if kind == "pool":
+            st = self.me()
             st.lockn += 1
             return "icb" if st.lockn % 2 == 1 else "files"
-        raise MachineryError(f"threading.Lock() created at an unknown site of external_data: {site}")
+        return kind
+
+
+def _classify_site(site: str) -> str:
+    """Which lock of external_data is being created: by the (qualified) name of the creating function."""
+    if site.startswith("_create_tensor_write_locks"):
+        return "tensor"
+    if site.startswith("_write_external_tensors"):
+        return "ocb"      # the callback lock shared by the shard drivers
+    if site.startswith("_ExternalDataWriter._write_parallel") or site.startswith("_write_parallel"):
+        return "pool"     # callback_lock, files_lock (in this order)
+    raise MachineryError(f"threading.Lock() created at an unknown site of external_data: {site}")
 
 
 def _lock_site_from(depth: int = 1) -> str:
@@ -306,10 +314,8 @@ def _lock_site_from(depth: int = 1) -> str:
         f = f.f_back
     if f is None:
         return "?"
-    name = f.f_code.co_name
-    if name.startswith("<") and f.f_back is not None:
-        name = f.f_back.f_code.co_name
-    return name
+    # qualified name, e.g. "_ExternalDataWriter._write_parallel" or "_write_external_tensors.<locals>._wrapped"
+    return getattr(f.f_code, "co_qualname", f.f_code.co_name)
 
 
 class _GLock:
@@ -524,7 +530,7 @@ class _GExecutor:
             env.emit(take, f.gidx)
             try:
                 val, ok = f.fn(*f.args, **f.kwargs), True
-            except SchedAbort:
+            except (SchedAbort, MachineryError):
                 raise
             except BaseException as e:  # noqa: BLE001 - what ThreadPoolExecutor does
                 val, ok = e, False
@@ -588,6 +594,15 @@ class RealEnv:
         self.counters = (0, False)
         self.deadlock = None
         self.aborting = False
+        self.error = None
+        self.conditions: list = []
+
+    def abort(self):
+        """After a deadlock verdict: let the threads stuck on the budget condition unwind."""
+        self.aborting = True
+        for c in self.conditions:
+            with c.real:
+                c.real.notify_all()
 
     def tid(self) -> int:
         t = getattr(self.tls, "tid", None)
@@ -640,15 +655,11 @@ class RealEnv:
             self.events.append(ev)
 
     def lock_kind(self) -> str:
-        site = _lock_site_from()
-        if site == "_create_tensor_write_locks":
-            return "tensor"
-        if site == "_write_external_tensors":
-            return "ocb"
-        if site == "_write_parallel":
+        kind = _classify_site(_lock_site_from())
+        if kind == "pool":
             self.tls.lockn = getattr(self.tls, "lockn", 0) + 1
             return "icb" if self.tls.lockn % 2 == 1 else "files"
-        raise MachineryError(f"threading.Lock() created at an unknown site of external_data: {site}")
+        return kind
 
     def threading_ns(self):
         env = self
@@ -701,6 +712,7 @@ class _RCondition:
     def __init__(self, env: RealEnv):
         self.env = env
         self.real = _rt.Condition()
+        env.conditions.append(self)
         self.budget = None   # set by the traced budget
         self.ctx = _rt.local()
 
@@ -737,6 +749,8 @@ class _RCondition:
         self.ctx.waited = True
 
         def pred():
+            if self.env.aborting:
+                raise RealWaitTimeout("aborted after a deadlock verdict")
             r = predicate()
             if not r:
                 self.env.emit("WakeBlock" if self.ctx.blocked else "AcqBlock", counters=self._counters())
@@ -803,6 +817,9 @@ class _RExecutor(_rcf.ThreadPoolExecutor):
             env.emit(take, gidx, mutate=lambda: env.mon.busy.add(t))
             try:
                 return fn(*args, **kwargs)
+            except MachineryError as e:
+                env.error = e
+                raise
             finally:
                 env.emit(fin, gidx, mutate=lambda: env.mon.busy.discard(t))
 
